@@ -192,7 +192,7 @@ def handle_gen(rng, tier):
         kinds = None
         if ci % 4 == 1:
             kinds = "t" * rng.randint(1, 3)
-        cfg = gen_cfg(rng, kinds=kinds)
+        cfg = gen_cfg(rng, kinds=kinds, ecs=1 - ci % 2)
         spec = cfg_spec(cfg)
         allt = set(cfg[0]) == {"t"}
         for _ in range(n // ncfg):
@@ -278,6 +278,32 @@ def handle_kind(prefixes):
                 nontrivial=lambda l, r: "st=ok" in r, timeout=900, shards=8)
 
 
+def rand_addr(rng):
+    r = rng.random()
+    if r < 0.35:
+        return ".".join(str(rng.choice([0, 1, 127, 128, 255, rng.randrange(256)])) for _ in range(4))
+    if r < 0.55:
+        return "::ffff:" + ".".join(str(rng.randrange(256)) for _ in range(4))
+    if r < 0.6:
+        return "-"
+    if r < 0.7:
+        return rng.choice(["::", "::1", "fe80::1", "ff02::fb", "::ffff:0:0", "0:0:0:0:0:fffe:1.2.3.4", "::fffe:ffff:1:2",
+                           "2001:db8::", "ffff:ffff:ffff:ffff:ffff:ffff:ffff:ffff", "0.0.0.0", "255.255.255.255"])
+    groups = ["%x" % rng.choice([0, 0, 0xffff, 0xff, rng.randrange(65536)]) for _ in range(8)]
+    return ":".join(groups)
+
+
+def packreq_gen(rng, tier):
+    n = budget(tier, 4000, 200000)
+    out = []
+    for i in range(n):
+        name = gens.rand_name(rng, exotic=0.2)
+        out.append("a%d ecs=%d name=%s type=%d class=%d client=%s" % (
+            i, rng.choice([1, 1, 1, 0]), gens.hx(lower_raw(name)), rng.choice([1, 28, 255, rng.randrange(65536)]),
+            rng.choice([1, 1, 255, rng.randrange(65536)]), rand_addr(rng)))
+    return out
+
+
 ROUTER_TRUST = ["router: the cache is disabled in these cases (C07/C08/C19 cover it); upstream behaviour is scripted by fake "
                 "servers run by the harness; the transports between router and fake upstream are the real ones"]
 ROUTER_RULE = ("handle: generated (configuration, query, listener, client address, scripted upstream behaviour) cases; each is "
@@ -299,6 +325,7 @@ PROPS["C10"] = dict(
     level_note="Partial: mapstructure/yaml strict decoding is modelled only as 'every key in the schema' and exercised through "
                "the real binary; the cache is off in the rule cases.")
 PROPS["C12"] = dict(
-    kinds=[handle_kind(["c12-"])],
+    kinds=[handle_kind(["c12-"]),
+           dict(name="packreq", gen=packreq_gen, shards=8, timeout=600, nontrivial=lambda l, r: r.startswith("OK"))],
     rule=ROUTER_RULE, assumptions=["inputs carry at most one OPT record, in the additional section (RFC 6891)"],
     trusted=ROUTER_TRUST, level_note="")
